@@ -208,6 +208,9 @@ fn main() {
     ctx.assume("whitening: sample covariance (n-1) of the whitened training data == identity within 1e-8 (f64) / 1e-3 (f32) + 64*eps_F*cond(cov) + 16*eps_F*max|x|/sqrt(lambda_min); full rank = n > p and equilibrated centred matrix of rank p; tolerance > 0.05 => indeterminate; rank-deficient training data => out of domain (fit outcome only tallied)");
     ctx.assume("wrong column count: LinearScaler::transform documents a panic, which is what is checked; nothing is documented for whiteners (not checked)");
     ctx.assume("linfa-preprocessing is built as the repository configures it: pure-Rust linfa-linalg, no BLAS feature");
+    ctx.assume("whiteners are fitted only on full-rank training data (and on empty data, which must be an error): nothing is stated for rank-deficient data, and Whitener::zca().fit on a single row with >= 3 columns does not terminate (NaN covariance fed to linfa-linalg's uncapped SVD loop); a watchdog turns any job running > 150 s into a MACHINERY-ERROR naming the case");
+    ctx.assume("signature classification only (never a verdict): a PCA / ZCA covariance violation is labelled *.inaccurate_svd_of_linfa_linalg when linfa-linalg's SVD of the very matrix the subject hands to it has a relative reconstruction residual > 64 eps_F; the two clamp signatures are assigned only when the eigenvalues of the observed covariance match the closed form of the clamp");
+    ctx.assume("quick tier: whiteners on the alphabet matrices up to n*p = 6 (4x2 only in thorough); alphabet / tiny / catalogue families use the light row-wise check (single rows + reversal), the pairs and norm families the full one");
 
     // ---------------- enumerate ----------------
     let mut jobs: Vec<Job> = Vec::new();
